@@ -17,18 +17,32 @@ out.append("\n## Appendix E — independently seeded breaking changes and what c
            "Each change was written by a fresh agent that saw only the property text and a scratch worktree, then confirmed by "
            "`bin/verify_seed.py` (patch applies to /repo HEAD, builds, vets, the touched packages' tests still pass, the demo fails "
            "with and passes without the change) and the check was run against it (`VERIF_REPO=<worktree> ./check Cxx quick`). "
-           "Material: `seeded/<id>/`.\n\n| id | files | verdict of the check | replay kind / signature |\n|---|---|---|---|\n")
+           "Material: `seeded/<id>/`. \"first verdict\" is what the check said when the change was first stored (before any work on it), \"latest re-check\" what `bin/recheck_seeds.py` got from the checks as they are now (kind `oracle` = a concrete failing input is the replay).\n\n| id | files | first verdict | latest re-check | |\n|---|---|---|---|---|\n")
 for f in sorted(glob.glob(os.path.join(V, "seeded/*/meta.json"))):
     m = json.load(open(f))
     d = os.path.dirname(f)
     files = sorted(set(re.findall(r"^\+\+\+ b/(\S+)", open(os.path.join(d, "patch.diff")).read(), re.M))) if os.path.exists(os.path.join(d, "patch.diff")) else []
     conf = all(m.get(k) for k in ("demo_passes_without", "patch_applies", "builds_and_vets", "demo_fails_with"))
-    for pr, c in m.get("checks", {}).items():
-        verdict = "VIOLATION" if c.get("rc") == 1 else "missed (exit %s)" % c.get("rc")
-        if c.get("rc") == 1 and c.get("replay_kind") in ("proof", "correspondence", "tie"):
-            verdict += " (no-failing-input-found)"
-        out.append("| %s%s | %s | %s: %s | %s / %s |\n" % (m["id"], "" if conf else " (not confirmed)", ", ".join(files), pr, verdict,
-                                                      c.get("replay_kind"), (c.get("signature") or "-")[:80]))
+    def verdict_of(c):
+        if c.get("rc") != 1:
+            return "missed (exit %s)" % c.get("rc")
+        v = "VIOLATION"
+        if c.get("replay_kind") in ("proof", "correspondence", "tie", "build"):
+            v += " (no-failing-input-found)"
+        return v
+    re_ = m.get("recheck") or {}
+    first = m.get("checks", {})
+    for pr in sorted(set(first) | set(re_.get("checks", {}))):
+        c = first.get(pr)
+        r = re_.get("checks", {}).get(pr)
+        now = "-"
+        if re_.get("error"):
+            now = "patch no longer applies to /repo " + str(re_.get("head"))
+        elif r:
+            now = "%s — %s / %s (/repo %s)" % (verdict_of(r), r.get("replay_kind"), (r.get("signature") or "-")[:80], re_.get("head"))
+        out.append("| %s%s | %s | %s: %s | %s | %s |\n" % (
+            m["id"], "" if conf else " (not confirmed)", ", ".join(files), pr,
+            (verdict_of(c) + " — %s / %s" % (c.get("replay_kind"), (c.get("signature") or "-")[:80])) if c else "-", now, ""))
 fa = os.path.join(V, "notes/FALSE_ALARMS.md")
 if os.path.exists(fa):
     out.append("\n## Appendix F — false alarms on the unchanged tree and the corrections made\n\n" + re.sub(r"^# .*\n", "", open(fa).read()).strip() + "\n")
